@@ -140,7 +140,7 @@ def run_plan(plan, tier, seed, t0):
     # ---- Verus units (parallel)
     vdir = os.path.join(BUILD, "verus", plan.prop)
     if plan.verus:
-        with ThreadPoolExecutor(max_workers=min(8, len(plan.verus))) as ex:
+        with ThreadPoolExecutor(max_workers=min(12, len(plan.verus))) as ex:
             results = list(ex.map(lambda u: vlib.run_verus(u, obs_by_name, vdir), plan.verus))
         for r in results:
             if r["machinery_error"]:
